@@ -292,12 +292,10 @@ Proof.
       unfold body at 1; cbn [py_getitem bind]; rewrite ?En; cbn [bind py_isidentifier]; try reflexivity.
       all: destruct (o_is_ident O n); cbn [py_not py_truth negb bind]; [|reflexivity].
       all: cbn [py_get bind]; rewrite Et; cbn [type_of ftype has_fill ffill]; unfold c_SCSV_TYPEMAP, c__SCSV_DEFAULT_TYPE, default_type;
-           cbn [py_keys map fst bind].
+           cbn [py_keys bind].
       + destruct (typemap_cases ty) as [[-> | [-> | [-> | [-> | ->]]]] | [T M]].
         1-5: cbn; destruct (dget kv "fill"); cbn; rewrite ?IH; destruct (validate_fields O fs') as [[|]|]; reflexivity.
-        rewrite T. unfold py_not_in, py_inb.
-        change [PStr "string"; PStr "integer"; PStr "float"; PStr "boolean"; PStr "complex"] with (map PStr type_names).
-        rewrite mem_py_strs, M. reflexivity.
+        rewrite T. unfold py_not_in, py_inb. rewrite typemap_dget, T. reflexivity.
       + cbn; destruct (dget kv "fill"); cbn; rewrite ?IH; destruct (validate_fields O fs') as [[|]|]; reflexivity. }
   cbn [py_getitem bind]. rewrite Ed, Em, Ef. cbn [bind py_len py_gt int_op2 as_int].
   rewrite ltb0_of_nat, (abs_fields_length _ _ Efs).
